@@ -14,7 +14,7 @@ RULE = ('programs x placements of K<=2 (thorough: sampled K=3) requests from {pa
 RULE += ('; also: aborted / restarted stepping tasks, one-shot state callbacks, programs with awkward values (uncopyable outputs, bare Kill()), processes recreated from a checkpoint, observers and cleanups that fail (function / partial / callable object), and the repository\'s own test suite run under the same edge oracle (pv/suitemon.py)')
 ASSUMPTIONS = ['lifecycle hooks do not raise (C03 owns that)', 'single-threaded deterministic event loop, no timers',
                'private attributes are read for coverage accounting only']
-REQUIRED = ['transitions', 'acts_after_terminal', 'samples', 'oneshot_callbacks_fired', 'recreated_with_broken_observers', 'failing_cleanup_runs', 'suite_edges', 'suite_processes']
+REQUIRED = ['transitions', 'acts_after_terminal', 'samples', 'oneshot_callbacks_fired', 'recreated_with_broken_observers', 'failing_cleanup_runs', 'suite_edges', 'suite_processes', 'communicator_fault_runs']
 ALPHABET = [['pause', 'p'], ['play'], ['kill', 'k'], ['resume', ['v']], ['fail', 'f'], ['soon_ok', 'c'], ['soon_raise', 'c']]
 BOUNDS = {'quick': 'basic program family (14) K<=2 exhaustive over slots + 8 random programs (K=2 quarter-sampled)', 'thorough': 'K=3 exhaustive on 4 key programs, + 40 random programs, K=3 sampled'}
 
@@ -24,6 +24,13 @@ DEEP = ('wait_async', 'cont_async', 'out_async', 'wait2')  # thorough: K=3 exhau
 
 def gen_cases(tier, seed):
     yield {'kind': 'suite', 'name': 'repository-suite', 'plan': []}
+    # processes with a communicator whose announcement of a state change fails with one of the tolerated faults (closed connection,
+    # invalid channel, timeout), or which loses the confirmation of an unsubscription at the end: the lifecycle is the same (the runs
+    # are those of C16's fault enumeration, judged here by the lifecycle oracle)
+    from pv.monitors import c16
+    for c in c16.gen_cases(tier, seed):
+        if c.get('kind') == 'bfault':
+            yield dict(c, kind='comm-fault')
     for c in _gen_cases(tier, seed):
         yield c
 
@@ -68,7 +75,7 @@ def _gen_cases(tier, seed):
         # the process is one recreated from a checkpoint and / or its observers and cleanups are broken (all tolerated faults: the
         # lifecycle is the same)
         for i, plan in enumerate([[]] + list(plans.all_placements(n, ALPHABET, 1))):
-            for variant in ({'recreate': 'created', 'listener': 'raising'}, {'recreate': 'created', 'listener': 'raising-terminal'}, {'listener': 'raising-terminal'}, {'listener': 'raising', 'failing_cleanups': True},
+            for variant in ({'listener': 'checkpointing'}, {'recreate': 'created', 'listener': 'checkpointing'}, {'recreate': 'created', 'listener': 'raising'}, {'recreate': 'created', 'listener': 'raising-terminal'}, {'listener': 'raising-terminal'}, {'listener': 'raising', 'failing_cleanups': True},
                             {'recreate': 'created', 'listener': True, 'failing_cleanups': True}):
                 yield dict({'name': name, 'program': prog, 'plan': plans.uniq(plan, 'r%d' % i), 'drain': True, 'barrage': True, 'probe': False}, **variant)
 
@@ -100,9 +107,30 @@ def run_suite(case):
             'sample': {'workload': 'repository test suite under pv.suitemon', 'pytest': r['tail'], 'processes': obs['suite_processes'], 'edges': obs['suite_edges']}}
 
 
+def run_comm_fault(case):
+    from pv.monitors import c16
+    obs = {'transitions': {}, 'samples': 0, 'acts_after_terminal': 0, 'acts': {}, 'communicator_fault_runs': 1}
+    try:
+        rec = c16.CommRun(dict(case, kind='bfault')).execute().record()
+    except BaseException as exc:  # noqa: BLE001
+        return {'viol': [judges.V('comm-fault-escaped', 'comm-fault-escaped:%s' % type(exc).__name__, 'a tolerated communicator fault (%s / %s) raised out of the run: %r' % (
+            case.get('bfail'), case.get('unsub_fault'), exc))], 'obs': obs, 'key': ['comm-fault', case['name'], case.get('bfail'), case.get('unsub_fault'), case['wrap']], 'nontrivial': True}
+    viol = judges.judge_c01(rec)
+    for e in rec['events']:
+        if e[0] == 'state':
+            k = '%s->%s' % (e[1], e[2])
+            obs['transitions'][k] = obs['transitions'].get(k, 0) + 1
+        elif e[0] == 'obs':
+            obs['samples'] += 1
+    return {'viol': viol, 'obs': obs, 'inconclusive': rec['inconclusive'], 'key': ['comm-fault', case['name'], case.get('bfail'), case.get('unsub_fault'), case['wrap']],
+            'nontrivial': bool(rec['final'] and rec['final']['terminated'])}
+
+
 def run_case(case):
     if case.get('kind') == 'suite':
         return run_suite(case)
+    if case.get('kind') == 'comm-fault':
+        return run_comm_fault(case)
     rec = lifecycle.run_case(case)
     viol = judges.judge_c01(rec)
     obs = {'transitions': {}, 'samples': 0, 'acts_after_terminal': 0, 'acts': {}, 'oneshot_callbacks_fired': sum(1 for e in rec['events'] if e[0] == 'oneshot'),
